@@ -1,0 +1,20 @@
+//go:build verif
+
+package kernel
+
+import (
+	"github.com/MixinNetwork/mixin/common"
+	"github.com/MixinNetwork/mixin/crypto"
+)
+
+// VerifNewAuthNode returns a Node that carries only what BuildAuthenticationMessage
+// and AuthenticateAs read: the signer address, the network id and the relayer flag.
+// No store, no peer, no loops. For the verification harness (C30). Add-only.
+func VerifNewAuthNode(signer common.Address, networkId crypto.Hash, isRelayer bool) *Node {
+	return &Node{
+		IdForNetwork: signer.Hash().ForNetwork(networkId),
+		Signer:       signer,
+		networkId:    networkId,
+		isRelayer:    isRelayer,
+	}
+}
